@@ -1314,7 +1314,7 @@ def sort(x, /, *, axis=-1, descending=False, stable=False):
 
     x = moveaxis(x, source=axis, destination=-1)
     x_shape = x.shape
-    x = x.reshape((-1, x_shape[-1]))
+    x = x.reshape((reduce(operator.mul, x_shape[:-1], 1), x_shape[-1]))
 
     new_coords, new_data = _sort_coo(x.coords, x.data, x.fill_value, sort_axis_len=x_shape[-1], descending=descending)
 
